@@ -1,6 +1,10 @@
 /* Harnesses for /repo/src/utils.c.  One entry function per job (lib/vlib.py, props/*.py). */
 #include "utils.h"        /* contracts (forward declarations) */
 #include "utils.c"        /* the real code: scratch copy with loop contracts under CBMC, /repo/src natively */
+#ifndef VERIF_REPLAY
+/* reference body of ICU u_strcpy for the short constant delimiter strings cif_analyze_string copies (trusted model) */
+UChar *u_strcpy(UChar *dst, const UChar *src) { dst[0] = src[0]; if (src[0]) { dst[1] = src[1]; if (src[1]) { dst[2] = src[2]; if (src[2]) { dst[3] = src[3]; } } } return dst; }
+#endif
 
 struct in_str { UChar str[MAXN]; size_t len; int flag; int32_t cp; };
 #ifndef VERIF_REPLAY
@@ -80,4 +84,52 @@ void harness_cif_normalize(void) {
         POST(g_pipe_n == 2 && g_pipe_first_mode == (int)UNORM_NFD && g_fold_at == 1 && g_pipe_last_mode == (int)UNORM_NFC, "C09 normalisation pipeline is NFD, case fold, NFC in that order");
         REACH("normalized"); if (in.terminate) free(out);
     } else { POST(out == NULL, "C17 failed normalisation leaves the output untouched"); REACH("normalize-failed"); }
+}
+
+/* ---- cif_analyze_string (C18) ---------------------------------------------------------------------------------------------- */
+struct in_an { UChar str[MAXN]; size_t len; int au, atq; int32_t limit; };
+DECL_IN(in_an)
+static int an_is_term(const UChar *s, size_t j) { return s[j] == 0x0A || (s[j] == 0x0D && s[j + 1] != 0x0A); }
+/* reference statistics, written from the documentation of struct cif_string_analysis_s */
+static void an_ghosts(const UChar *s, size_t len) {
+    static const UChar chs[10] = { 0x20, 0x09, 0x5B, 0x5D, 0x7B, 0x7D, 0x27, 0x22, 0x0A, 0x0D };
+    gs_lines[0] = gs_cur[0] = gs_first[0] = gs_max[0] = gs_semi[0] = gs_most[0] = gs_crlf[0] = 0; gs_nlsemi[0] = 0;
+    for (int k = 0; k < 10; k++) gs_cnt[k][0] = 0;
+    gs_has_apos3 = gs_has_quot3 = 0;
+    for (size_t j = 0; j < MAXN; j++) {
+        if (j < len) {
+            UChar c = s[j];
+            int term = an_is_term(s, j), crlf_cr = (c == 0x0D && s[j + 1] == 0x0A);
+            for (int k = 0; k < 10; k++) gs_cnt[k][j + 1] = gs_cnt[k][j] + (c == chs[k] ? 1 : 0);
+            gs_crlf[j + 1] = gs_crlf[j] + (crlf_cr ? 1 : 0);
+            gs_lines[j + 1] = gs_lines[j] + (term ? 1 : 0);
+            gs_cur[j + 1] = term ? 0 : (crlf_cr ? gs_cur[j] : gs_cur[j] + 1);
+            gs_first[j + 1] = (term && gs_lines[j] == 0) ? gs_cur[j] : gs_first[j];
+            gs_max[j + 1] = (term && (gs_lines[j] == 0 || gs_cur[j] > gs_max[j])) ? gs_cur[j] : gs_max[j];
+            gs_semi[j + 1] = (c == ';') ? gs_semi[j] + 1 : (crlf_cr ? gs_semi[j] : 0);
+            gs_most[j + 1] = (c != ';' && !crlf_cr && gs_semi[j] > gs_most[j]) ? gs_semi[j] : gs_most[j];
+            gs_nlsemi[j + 1] = gs_nlsemi[j] || (term && s[j + 1] == ';');
+            if (j + 2 < len + 0 && c == 0x27 && s[j + 1] == 0x27 && s[j + 2] == 0x27) gs_has_apos3 = 1;
+            if (j + 2 < len + 0 && c == 0x22 && s[j + 1] == 0x22 && s[j + 2] == 0x22) gs_has_quot3 = 1;
+        }
+    }
+}
+void harness_analyze_string(void) {
+    struct in_an in = GET_IN(in_an);
+    PRE(IN_IS_USTR(in));
+    PRE(in.limit >= 8 && in.limit <= 4096);
+    g_len = in.len; an_ghosts(in.str, in.len);
+    struct cif_string_analysis_s *res = malloc(sizeof *res); PRE(res != NULL);
+    int r = cif_analyze_string(in.str, in.au, in.atq, in.limit, res);
+    size_t n = in.len;
+    POST(r == CIF_OK && res->length == (int32_t)n && res->num_lines == 1 + gs_lines[n], "C18 length and number of lines exact");
+    POST(res->length_last == gs_cur[n] && res->length_first == (gs_lines[n] == 0 ? gs_cur[n] : gs_first[n]), "C18 first / last line length exact");
+    POST(res->length_max == (gs_lines[n] == 0 ? gs_cur[n] : (gs_cur[n] > gs_max[n] ? gs_cur[n] : gs_max[n])), "C18 longest line exact");
+    POST(res->max_semi_run == (gs_semi[n] > gs_most[n] ? gs_semi[n] : gs_most[n]) && (res->contains_text_delim != 0) == (gs_nlsemi[n] != 0), "C18 semicolon run and newline-semicolon exact");
+    POST(res->delim_length != 0 || (in.au && gs_lines[n] == 0 && BARE_OK(in.str, n)), "C18 no delimiter only for a string CIF 2.0 reads back whitespace-delimited");
+    POST(res->delim_length != 1 || (gs_lines[n] == 0 && ((res->delim[0] == 0x27 && gs_cnt[6][n] == 0) || (res->delim[0] == 0x22 && gs_cnt[7][n] == 0))), "C18 single delimiter does not occur in the string");
+    POST(res->delim_length != 3 || (in.atq && n > 0 && ((res->delim[0] == 0x27 && !gs_has_apos3 && in.str[n - 1] != 0x27) || (res->delim[0] == 0x22 && !gs_has_quot3 && in.str[n - 1] != 0x22))),
+         "C18 triple delimiter neither occurs in the string nor can merge with its last character");
+    if (res->delim_length == 0) REACH("bare"); if (res->delim_length == 1) REACH("quoted"); if (res->delim_length == 3) REACH("triple"); if (res->delim_length == 2) REACH("text-field");
+    free(res);
 }
